@@ -61,6 +61,22 @@ def run(ctx):
                                        "result_fill_1": a1[:1500], "result_fill_2": a2[:1500], "meta": m}, True)
                         break
             ctx.cov["two_fill_runs"] = ctx.cov.get("two_fill_runs", 0) + n2
+    # coefficient-domain operations (vec_znx_* and big twins): the C09 correspondence compares whole
+    # buffers from garbage-filled outputs with hidden guard limbs and flags stray writes / operand
+    # mutation; run it here as part of C11 (violations are reported under C11).
+    from . import c09, common
+    sub = common.Ctx("C11", ctx.tier, ctx.seed)
+    sub.finish = lambda **kw: (1 if sub.violations else 0)
+    sub._registry_done = True
+    try:
+        c09.run(sub)
+    except Exception as e:      # the sub-run must not hide C11's own verdict
+        broken.append(f"coefficient-domain sub-run crashed: {e!r}")
+    ctx.violations += sub.violations
+    ctx.evaluations += sub.evaluations
+    ctx.distinct |= {("ring",) + tuple(k) if isinstance(k, tuple) else ("ring", k) for k in sub.distinct}
+    ctx.disagreements += sub.disagreements
+    ctx.cov["coefficient_domain_cases"] = sub.evaluations
     if broken and not ctx.violations:
         ctx.violation("C11 obligation or correspondence no longer checks", {"broken": broken[:20]}, False)
     return ctx.finish(rule="random hal programs (all families incl. in-place and set_size shrink/grow); every output buffer starts from garbage, "
